@@ -27,7 +27,7 @@ func (e *Event) Full() string {
 	if e.Kind == "store" || e.Kind == "mapset" {
 		return e.Head() + " = " + e.Args
 	}
-	return e.Head() + "(" + e.Args + ")"
+	return e.Head() + " <- (" + e.Args + ")"
 }
 
 func (f *FuncFacts) Events() []*Event {
@@ -106,8 +106,17 @@ func evDominates(a, b *Event) bool {
 // matchEvents: events whose Head equals sel, or whose Full has sel as prefix.
 func (f *FuncFacts) matchEvents(sel string) []*Event {
 	var out []*Event
+	if strings.HasPrefix(sel, "guard:") {
+		want := sel[6:]
+		for _, g := range f.Guards() {
+			if strings.Contains(g.Code, want) || strings.Contains(g.Key(), want) {
+				out = append(out, &Event{Kind: "guard", Name: g.Code, blk: g.blk, idx: len(g.blk.Instrs) - 1, Pos: g.Pos})
+			}
+		}
+		return out
+	}
 	for _, e := range f.Events() {
-		if e.Head() == sel || e.Full() == sel || (strings.Contains(sel, "(") && strings.HasPrefix(e.Full(), sel)) || (strings.Contains(sel, " = ") && strings.HasPrefix(e.Full(), sel)) {
+		if e.Head() == sel || e.Full() == sel || ((strings.Contains(sel, " <- (") || strings.Contains(sel, " = ")) && strings.HasPrefix(e.Full(), sel)) {
 			out = append(out, e)
 		}
 	}
